@@ -204,6 +204,10 @@ def run(prop, tier, seed):
                            first_events=[_short(e) for e in tr["events"][:5]],
                            last_event=_short(tr["events"][-1])))
     ck.cov["by_catch_other_clauses"] = bycatch
+    if prop == "C17":
+        # last sentence of C17: an estimator's n_iter_ is the number of outer iterations of the solve inside fit()
+        from . import niter
+        niter.run_binding(ck, pool, tier, seed)
     if prop == "C03":
         # exact replay of the design model's arithmetic (spec -> code); drift is binding information
         from . import micro
